@@ -87,6 +87,8 @@ try:
     outcome["exit"] = int(code)
 except SystemExit as e:
     outcome["exit"] = e.code if isinstance(e.code, int) else (0 if e.code is None else 1)
+    if e.code is not None and not isinstance(e.code, int):
+        print(e.code, file=sys.stderr)        # what the interpreter does with `raise SystemExit("message")`
 except BaseException as e:  # noqa: BLE001
     outcome["exception"] = f"{type(e).__name__}: {e}"
     outcome["exit"] = 1
